@@ -15,7 +15,7 @@ def probe_spec(expr, extra=None):
         "x": {"content": expr},
         "a": {"group": "g"},
         "b": {"group": "g"},
-        "c": {},
+        "c": {"attrs": {"o": {"default": None}}},
         "r": {"attrs": {"q": {}}},
         "text": {"group": "inline"},
         "i": {"inline": True, "group": "inline"},
